@@ -8,6 +8,7 @@ META = {
 LEVEL = "exploration"
 BUDGET = {"quick": 42, "thorough": 240}
 SHARDS = {"quick": 1, "thorough": 12}
+MIN_CASES = {"quick": 600, "thorough": 0}
 
 from vf import env  # noqa
 import os
@@ -46,7 +47,9 @@ def run(ck):
     counter = [ck.shard * 4, 0]
     i = 0
     try:
-        while not ck.out_of_time():
+        # on a loaded machine the budget alone gave 230 histories (seed 21 sweep): two directed families were never
+        # reached and the run was inconclusive; keep going to a minimum number of cases (bounded by 4x the budget)
+        while ck.more(min_cases=MIN_CASES[ck.tier]):
             i += 1
             if not ck.mine(i):
                 continue
@@ -217,7 +220,7 @@ class History(object):
         rounds = 5 if self.ck.tier == "quick" else 8
         self.runaway = False
         for r in range(rounds):
-            if self.ck.out_of_time() or self.runaway:
+            if not self.ck.more(min_cases=MIN_CASES[self.ck.tier]) or self.runaway:
                 break
             n_ = self.counter[0]
             fam = DIRECTED[(n_ // 2) % len(DIRECTED)] if n_ % 2 == 0 else OTHER[(n_ // 2) % len(OTHER)]
